@@ -206,6 +206,11 @@ Proof.
     + apply eqb_t in E. subst jj. rewrite Nat.eqb_refl in Mt. rewrite Heqo in Mt. simpl in Mt.
       rewrite opt_eqb_refl. apply mseq_normf. exact Mt.
     + rewrite Nat.eqb_sym in E. rewrite E in Mt. apply mseq_normf. exact Mt.
+  - apply own_acq; assumption.
+  - simpl in Mt. unfold upd. simpl. destruct (Nat.eqb jj (jf (recs s r))) eqn:E.
+    + apply eqb_t in E. subst jj. rewrite !Nat.eqb_refl. rewrite Heqo in Mt. simpl in Mt.
+      rewrite opt_eqb_refl. simpl. exact Mt.
+    + rewrite Nat.eqb_sym in E. rewrite E. simpl. rewrite Nat.eqb_refl. exact Mt.
   - eapply own_rel; eassumption.
   - simpl in Mt. unfold upd. destruct (Nat.eqb jj j0) eqn:E.
     + apply eqb_t in E. subst jj. rewrite Nat.eqb_refl in Mt. apply andb_true_iff in Mt. destruct Mt as [_ Mt].
